@@ -26,6 +26,11 @@ def mutants(text, pairs=False, max_prefix=4000):
         for r in ALPHABET:
             out += emit('tok%d=%r' % (i, r), text[:a] + r + text[b:])
         out += emit('tok%d+dup' % i, text[:b] + ' ' + text[a:b] + text[b:])
+        # equal neighbours (degenerate ranges, repeated values): the token takes the value of the previous / next one
+        if i > 0:
+            out += emit('tok%d=prev' % i, text[:a] + text[toks[i - 1][0]:toks[i - 1][1]] + text[b:])
+        if i + 1 < len(toks):
+            out += emit('tok%d=next' % i, text[:a] + text[toks[i + 1][0]:toks[i + 1][1]] + text[b:])
     lines = text.split('\n')
     for i in range(len(lines)):
         out += emit('line%d-del' % i, '\n'.join(lines[:i] + lines[i + 1:]))
